@@ -98,7 +98,5 @@ func (c *Pool[T]) Put(v T) {
 // Get 从池中获取一个值
 // gets a value from the pool
 func (c *Pool[T]) Get() T {
-	v := c.p.Get().(T)
-	verifOnPool("get", v)
-	return v
+	return c.p.Get().(T)
 }
